@@ -32,6 +32,7 @@ fn main() {
         "C08" => {
             parts.push(make_part("sched-pool", "SCHED", cli.cases(6_000, 300_000), || pool::pool_strategy(12), |_| (), |_, c| pool::run_pool_case(c)));
             parts.push(make_part("sched-server", "SCHED", cli.cases(2_500, 100_000), || server::server_strategy(9, false), |_| (), |_, c| server::run_server_case("C08", c)));
+            parts.push(make_part("sched-server-edge", "SCHED", cli.cases(3_000, 150_000), server::server_edge_strategy, |_| (), |_, c| server::run_server_edge_case("C08", c)));
             {
                 let th = cli.thorough;
                 let mut p = make_part("sched-pool-many", "SCHED", if th { 10 } else { 2 }, move || pool::pool_many_strategy(th), |_| (), |_, c| pool::run_pool_case(c));
@@ -46,7 +47,7 @@ fn main() {
                 })
             }));
             (
-                "part sched-pool: TaskPool alone under the controlled scheduler: N=1..12 long-lived tasks (each announces itself, then blocks until all N have started), optional warm-up burst and idle phase (virtual time) before, generated arrival pattern and schedule tape; oracle: all N run at the same time (otherwise: exact deadlock report), each task body exactly once; non-trivial: N >= 5, distinct by case and executed decision trace; part sched-server: the whole Server over the in-memory listener: bursts of 1-9 keep-alive connections each sending 1-2 requests, 1-2 application threads answering, every client waits for its own responses while all the others stay open and closes only after all have theirs, optionally 1-3 further connections stalled in the middle of a request head for the whole run; oracle: completes (otherwise exact deadlock report), each connection gets exactly its own responses; in half of the cases the application threads hold their requests until each of them has one; part sched-pool-many: 257 / 300 (thorough: up to 1100) simultaneously long-lived tasks under the default schedule (no fixed limit may stand between a connection and its worker); part sweep-pool: for each generated pool configuration (N <= 7) every schedule with one (quick) / up to two (thorough) deviations from the default schedule",
+                "part sched-server-edge: the whole Server with one application thread in recv_timeout(T) (1-200 ms, one call) and 1-2 in recv(), 0-5 idle connections, and a connection whose 1-2 requests arrive a generated number of nanoseconds around the end of T (mostly within its last millisecond): they are delivered and answered without anything happening on another connection, else an exact deadlock report; non-trivial: arrival in the last millisecond; part sched-pool: TaskPool alone under the controlled scheduler: N=1..12 long-lived tasks (each announces itself, then blocks until all N have started), optional warm-up burst and idle phase (virtual time) before, generated arrival pattern and schedule tape; oracle: all N run at the same time (otherwise: exact deadlock report), each task body exactly once; non-trivial: N >= 5, distinct by case and executed decision trace; part sched-server: the whole Server over the in-memory listener: bursts of 1-9 keep-alive connections each sending 1-2 requests, 1-2 application threads answering, every client waits for its own responses while all the others stay open and closes only after all have theirs, optionally 1-3 further connections stalled in the middle of a request head for the whole run; oracle: completes (otherwise exact deadlock report), each connection gets exactly its own responses; in half of the cases the application threads hold their requests until each of them has one; part sched-pool-many: 257 / 300 (thorough: up to 1100) simultaneously long-lived tasks under the default schedule (no fixed limit may stand between a connection and its worker); part sweep-pool: for each generated pool configuration (N <= 7) every schedule with one (quick) / up to two (thorough) deviations from the default schedule",
                 sched_assumptions,
             )
         }
